@@ -381,7 +381,7 @@ Definition builtin (f : string) (args : list pv) (kws : list (string * pv)) : ou
     match args, kws with [v], [] => of_opt (option_map VFloat (as_num v)) | _, _ => UNM end
   else if f =? "min" then
     match args, kws with
-    | [a; b], [] => match as_int a, as_int b with Some x, Some y => OK (VInt (Z.min x y)) | _, _ => UNM end
+    | [VInt x; VInt y], [] => OK (VInt (Z.min x y))          (* Python ints only: min returns one of its arguments *)
     | _, _ => UNM end
   else if f =? "tuple" then
     match args, kws with [VTup l], [] | [VList l], [] => OK (VTup l) | _, _ => UNM end
